@@ -336,7 +336,12 @@ func (f *FieldCopyToGenerator) genListOrMap() *j.Statement {
 				}
 
 				// for k, a := range obj.List
-				g.For(j.List(j.Id("k"), j.Id("a"))).Op(":=").Range().Id(fieldName).BlockFunc(func(g *j.Group) {
+				elem := "a"
+				if (f.Kind == ObjectListKind || f.Kind == ObjectMapKind) && !f.IsNullable && f.getValueField().Message.IsEmpty {
+					// Elements which are messages without fields held by value are never read
+					elem = "_"
+				}
+				g.For(j.List(j.Id("k"), j.Id(elem))).Op(":=").Range().Id(fieldName).BlockFunc(func(g *j.Group) {
 					if (f.Kind == PrimitiveListKind) || (f.Kind == PrimitiveMapKind) {
 						f.genPrimitiveBody("a", g)
 					} else {
